@@ -331,6 +331,36 @@ func init() {
 		"unicode.ToLower", "unicode.ToUpper", "unicode/utf8.ValidString", "unicode/utf8.RuneLen", "regexp.QuoteMeta", "runtime.GOOS"} {
 		H[n] = noop
 	}
+	openFn := func(e *Engine, fc *fnCtx, st *State, c *ssa.CallCommon, a []Val, r types.Type) (Val, bool) {
+		v := e.freshVal("opened", r)
+		if len(v.Tuple) == 2 {
+			ref := e.newRef(st, "file")
+			e.assume(st, and(implies("(= "+v.Tuple[1].T+" 0)", "(= "+v.Tuple[0].T+" "+ref+")"), implies("(not (= "+v.Tuple[1].T+" 0))", "(= "+v.Tuple[0].T+" 0)")))
+		}
+		return v, true
+	}
+	H["os.OpenFile"] = openFn
+	H["os.Open"] = openFn
+	H["os.Create"] = openFn
+	// io.LimitReader / io.Copy: at most n bytes are copied from a reader limited to n
+	H["io.LimitReader"] = func(e *Engine, fc *fnCtx, st *State, c *ssa.CallCommon, a []Val, r types.Type) (Val, bool) {
+		e.sc.declareFun("limitrd", []string{"Int", "Int"}, "Int")
+		e.sc.declareFun("limitof", []string{"Int"}, "Int")
+		e.sc.declareFun("islimitrd", []string{"Int"}, "Bool")
+		t := "(limitrd " + a[0].T + " " + a[1].T + ")"
+		v := Val{T: e.sc.define("lr", "Int", t), S: "Int", GoT: r}
+		e.assume(st, and("(islimitrd "+v.T+")", "(= (limitof "+v.T+") "+a[1].T+")", "(not (= "+v.T+" 0))"))
+		return v, true
+	}
+	H["io.Copy"] = func(e *Engine, fc *fnCtx, st *State, c *ssa.CallCommon, a []Val, r types.Type) (Val, bool) {
+		e.sc.declareFun("limitof", []string{"Int"}, "Int")
+		e.sc.declareFun("islimitrd", []string{"Int"}, "Bool")
+		n := e.freshVal("copied", types.Typ[types.Int64])
+		err := e.freshVal("copyerr", types.Universe.Lookup("error").Type())
+		e.assume(st, and("(>= "+n.T+" 0)", implies("(islimitrd "+a[1].T+")", "(<= "+n.T+" (imax 0 (limitof "+a[1].T+")))")))
+		e.setHeapIn(st, "GH_io.lastCopied", "Int", n.T)
+		return tuple(n, err), true
+	}
 	H["(*archive/tar.Reader).Next"] = func(e *Engine, fc *fnCtx, st *State, c *ssa.CallCommon, a []Val, r types.Type) (Val, bool) {
 		v := e.freshVal("tarnext", r)
 		if len(v.Tuple) == 2 {
@@ -339,9 +369,19 @@ func init() {
 		return v, true
 	}
 	H["(*archive/tar.Header).FileInfo"] = func(e *Engine, fc *fnCtx, st *State, c *ssa.CallCommon, a []Val, r types.Type) (Val, bool) {
-		v := e.freshVal("fileinfo", r)
+		e.sc.declareFun("tarFileInfo", []string{"Int"}, "Int")
+		v := Val{T: "(tarFileInfo " + a[0].T + ")", S: "Int", GoT: r}
 		e.assume(st, "(not (= "+v.T+" 0))")
 		return v, true
+	}
+	pureSpecMethods["(*archive/tar.Header).FileInfo"] = func(e *Engine, env *SpecEnv, a []Val) Val {
+		e.sc.declareFun("tarFileInfo", []string{"Int"}, "Int")
+		obj, _, _ := types.LookupFieldOrMethod(a[0].GoT, true, nil, "FileInfo")
+		var rt types.Type
+		if f, ok := obj.(*types.Func); ok {
+			rt = f.Type().(*types.Signature).Results().At(0).Type()
+		}
+		return Val{T: "(tarFileInfo " + a[0].T + ")", S: "Int", GoT: rt}
 	}
 	// path algebra: Clean / Join / Dir are uninterpreted functions shared with the specification language
 	uf1 := func(name string) stdHandler {
